@@ -4,7 +4,7 @@ from ..facts import Module
 
 LEVEL = "other"
 RM = {"RT": "R-C08-PASS", "LEN": "R-C08-LEN", "ADVANCE": "R-C08-LOCKSTEP", "TAGPOS": "R-C08-END", "INPLACE": "R-C08-INPLACE", "INRANGE": "R-C08-READS"}
-PAIR = {"MODE": "R-C08-PASS", "PREFIX": "R-C08-PASS1", "NONCE2": "R-C08-NONCE"}
+PAIR = {"MODE": "R-C08-PASS", "PREFIX": "R-C08-PASS1", "NONCE2": "R-C08-NONCE", "SETUPFN": "R-C08-SETUPFN", "SETUPSENS": "R-C08-SETUPFN"}
 
 
 def run(ck, build):
@@ -13,6 +13,8 @@ def run(ck, build):
             "repeats encrypt's first pass call for call (setup, absorb AD, absorb plaintext, generate tag: same callees, domains, rounds, chained state) over (npub, ad, recovered plaintext m, clen - 8)")
     ck.rule("R-C08-NONCE", "RELATIONAL: decrypt's second-pass setup equals encrypt's (same callee, domain, key words, nonce composition) with the 8 bytes stored at c + clen - 8 in place of the tag encrypt "
             "generated and stored at c + mlen")
+    ck.rule("R-C08-SETUPFN", "RELATIONAL: the setup function all passes call computes the same state from (key words, domain, the twelve nonce bytes) on every path class it distinguishes "
+            "(e.g. the alignment of the nonce pointer), and every bit of the twelve nonce bytes enters that state on every class (necessary for a modified nonce to be rejected)")
     ck.rule("R-C08-PASS", "RELATIONAL, per path class of the keystream pass: same permutation call(s) in both directions (callee, rounds, key, input state); decrypt applied to encrypt's output-byte terms gives "
             "back the plaintext bytes bit for bit; the state after a whole block agrees; decrypt returns check_tag's verdict on the regenerated tag")
     ck.rule("R-C08-LOCKSTEP", "cursors and remaining length advance in lock-step; residues 0..3 each handled once")
